@@ -104,6 +104,16 @@ def sigBool (text : String) (out : String) : Option String :=
   | Res.panic w, _ => if out == "panic:" ++ w then none else some ("panic:" ++ w)
   | _, Res.panic w => some ("release-panic:" ++ w)
 
+/-- the signature gate as translated (`will_execute_raw` run on the two recorded texts; the async builder's
+    `will_return_async` likewise), against what the implementation did: a refusal must come before any effect -/
+def sigGate (async : Bool) (expected got : String) (out : String) : Option String :=
+  let lib : (List Unit) × (List Unit) × Unit := ([], [], ())
+  let r := if async then run (GenIf.WhenCalledBuilderAsync_will_return_async Mode.debug lib 1 expected.toList (2, got.toList)) (os0 [])
+           else run (GenIf.WhenCalledBuilder_will_execute_raw Mode.debug lib 1 expected.toList (2, got.toList)) (os0 [])
+  match r.1 with
+  | Res.ok _ => if out == "accept" then (if r.2.log.length == 2 then none else some "effects") else some "translated-gate-accepts"
+  | Res.panic _ => if out == "sigpanic" then (if r.2.log.isEmpty then none else some "effects-before-refusal") else some "translated-gate-refuses"
+
 /-- fold the translated function's verdict into a line verdict: a difference is a disagreement
     (between the source as translated and the implementation's observation) -/
 def withGen (v : Verdict) (g : Option String) : Verdict :=
